@@ -165,7 +165,7 @@ func runC01(c *core.Ctx) {
 			}
 			accepted = true
 			done := judgeC01(c, eng, "script", p.Source, map[string]any{"features": topFeatures(p.Features)}, o, func(cand string) host.Outcome {
-				return host.New().RunScript(eng, cand, nil, nil)
+				return host.New().RunScript(eng, cand, nil, limited())
 			})
 			if eng == host.EngI && done {
 				c.Inc("completed")
@@ -229,7 +229,7 @@ func runC01(c *core.Ctx) {
 					h2.Codes[k] = v
 				}
 				h2.UUID = preUUID
-				return h2.RunTx(eng, cand, nil, []common.Address{host.Addr(1)}, nil)
+				return h2.RunTx(eng, cand, nil, []common.Address{host.Addr(1)}, limited())
 			})
 			if done && eng == host.EngI {
 				c.Inc("tx_completed")
